@@ -10,7 +10,9 @@ Oracles on the implementation (public `compile`, and `compile_lex` = the same pi
  (2) the log gains exactly one [ERROR] entry per offender, in source order, naming the offending text, with the 0-based
      line = number of LF before it; the remaining entries are those of the clean program;
  (3) [PRINT](line) entries carry the line of their statement, also after notes / rests / lengths followed by blank lines;
- (4) bounds: <= 100 entries, <= 30 + 1 unknown-character entries, log text <= 4096 + 3 characters - on every output;
+ (4) bounds: <= 100 entries, <= 30 + 1 unknown-character entries, log text <= 4096 + 3 characters - on every output; at the
+     limit (k PRINT lines sized so that the joined log text has exactly 4095, 4096, 4097, ... 4096+99, ... characters) the log is
+     the joined text when that has <= 4096 characters and its first 4096 characters + "..." otherwise;
  (5) everything after End / END is ignored (bytes and log of the prefix program);
  (6) silence: with debug 0 the harness process prints nothing on stdout for any of these cases."""
 import json, os, re
@@ -285,6 +287,57 @@ def run_generated(ctx, n):
             ctx.dist["model_agrees"] = ctx.dist.get("model_agrees", 0) + 1
 
 
+def boundary_program(rng, k, total, tail="c d e"):
+    """k lines `PRINT({aaa..})` (line i gives the entry `[PRINT](i) aaa..`) whose payload lengths are chosen so that the JOINED
+    log text (entries + k-1 line breaks) has exactly `total` characters; returns (source, joined log text) or None"""
+    fixed = sum(10 + len(str(i)) for i in range(k)) + (k - 1)      # "[PRINT](" i ") " per entry, and the separators
+    pay = total - fixed
+    if pay < k:
+        return None
+    cuts = sorted(rng.sample(range(1, pay), k - 1)) if k > 1 else []
+    sizes = [b - a for a, b in zip([0] + cuts, cuts + [pay])]
+    letters = "abcdefgxyz"
+    texts = [rng.choice(letters) * n for n in sizes]
+    src = "".join("PRINT({%s})\n" % t for t in texts) + tail
+    joined = "\n".join("[PRINT](%d) %s" % (i, t) for i, t in enumerate(texts))
+    assert len(joined) == total
+    return src, joined
+
+
+def expected_log_text(joined):
+    return joined if len(joined) <= 4096 else joined[:4096] + "..."
+
+
+def run_boundary(ctx):
+    """(4b) get_logs_str at its limit: joined log text of exactly 4096-1, 4096, 4096+1, ... characters"""
+    rng = ctx.rng
+    cases = []
+    ks = [2, 3, 10, 50, 99, 100] + [rng.randrange(2, 101) for _ in range(6 if ctx.tier == "quick" else 60)]
+    for k in ks:
+        totals = [4095, 4096, 4097, 4096 + 50, 4096 + 99, 4096 + 100, 4096 + k - 1, 4096 + k] + \
+                 [rng.randrange(4000, 4300) for _ in range(3)] + [rng.randrange(4097, 4196) for _ in range(3)]
+        for t in totals:
+            bp = boundary_program(rng, k, t, rng.choice(["c d e", "", "c"]))
+            if bp:
+                cases.append(bp)
+    lines = [case_line(kind, src) for src, _ in cases for kind in ("compile", "lex")]
+    buf = []
+    got = ctx.impl(lines, stall=30, capture_stdout=buf)
+    silent(ctx, lines, buf, "log-limit sources")
+    for j, (src, joined) in enumerate(cases):
+        want = expected_log_text(joined)
+        for d, kind in ((0, "compile"), (1, "lex")):
+            g = got[2 * j + d].split("\t")
+            ctx.count("log_limit", src if d == 0 else None)
+            check_bounds(ctx, src, got[2 * j + d], kind)
+            have = vlib.dec_text(g[1]) if len(g) > 1 else got[2 * j + d]
+            if have != want:
+                ctx.oracle_fail("get_logs_str at its limit: a joined log text of %d characters must come back %s (%s)" % (
+                                    len(joined), "unchanged" if len(joined) <= 4096 else "as its first 4096 characters + '...'", kind),
+                                lines[2 * j + d], "%d characters, ends with %r" % (len(have), have[-12:]),
+                                "%d characters, ends with %r" % (len(want), want[-12:]), input_text=src)
+
+
 def run_corpus(ctx):
     p = os.path.join(vlib.VERIF, "corpus", "C19.jsonl")
     if not os.path.exists(p):
@@ -304,6 +357,10 @@ def run_corpus(ctx):
         if "same_bytes_as" in o and g[0] != gc[0]:
             ctx.oracle_fail("the offender changes the music: %s" % o.get("why", ""), lines[2 * i], "%r -> %s" % (o["src"], g[0][-160:]),
                             "%r -> %s" % (o["same_bytes_as"], gc[0][-160:]), input_text=o["src"])
+        if "log_text" in o and len(g) > 1 and vlib.dec_text(g[1]) != o["log_text"]:
+            have = vlib.dec_text(g[1])
+            ctx.oracle_fail("log text: %s" % o.get("why", ""), lines[2 * i], "%d characters, ends with %r" % (len(have), have[-12:]),
+                            "%d characters, ends with %r" % (len(o["log_text"]), o["log_text"][-12:]), input_text=o["src"])
         if "log" in o and len(g) > 1:
             log = split_log(vlib.dec_text(g[1]))
             if log != o["log"]:
@@ -438,6 +495,7 @@ def run_fixed(ctx):
 def run(ctx):
     run_corpus(ctx)
     run_fixed(ctx)
+    run_boundary(ctx)
     run_generated(ctx, 700 if ctx.tier == "quick" else 15000)
 
 
